@@ -18,6 +18,8 @@ pub fn generate_report(
     optimizations: HashMap<Optimization, Vec<(String, BTreeSet<LineNumber>)>>,
     qa: HashMap<QualityAssurance, Vec<(String, BTreeSet<LineNumber>)>>,
 ) {
+    #[cfg(solstat_verif)]
+    use crate::verif_shim::fs;
     let mut solstat_report = String::from("");
 
     if vulnerabilities.len() > 0 {
